@@ -10,6 +10,7 @@ import (
 
 	"annverif/cfgx"
 	"annverif/core"
+	"annverif/equiv"
 )
 
 // Ctx is what a rule set gets: the program, helpers, and the report to fill.
@@ -19,6 +20,7 @@ type Ctx struct {
 	R    *core.Report
 	Tier string
 	fns  map[*ssa.Function]*cfgx.Fn
+	eq   *equiv.Checker
 }
 
 func NewCtx(p *core.Prog, r *core.Report, tier string) *Ctx {
@@ -211,3 +213,8 @@ func everyPath(f *cfgx.Fn, site ssa.Instruction, pred func(g map[string]bool) bo
 	}
 	return true, fmt.Sprintf("%d paths", len(paths))
 }
+
+// small aliases used by table-style rules
+func cfgxCallee(ci ssa.CallInstruction) string { return cfgx.CalleeName(ci) }
+func eqs(s string) func(string) bool         { return cfgx.Equals(s) }
+func exprOf(v ssa.Value) string              { return cfgx.Expr(v) }
